@@ -174,6 +174,22 @@ def install(flags=()):  # noqa: C901, PLR0915
 
     _PATCH_REGISTRATIONS[functools.partial] = _partial_fixed
 
+    # ---- S9: temporary names are concrete ---------------------------------
+    # CrossHair models `random` symbolically, which makes tempfile's candidate names symbolic strings
+    # (seen as minutes of z3 time and NotDeterministic errors when pipefunc falls back to
+    # tempfile.mkdtemp()).  Temporary directory names are irrelevant to every property.
+    import tempfile as _tempfile
+
+    def _native(fn):
+        def w(*a, **k):
+            with NoTracing():
+                return fn(*a, **k)
+
+        return w
+
+    for _n in ("mkdtemp", "mkstemp", "gettempdir"):
+        _PATCH_REGISTRATIONS[getattr(_tempfile, _n)] = _native(getattr(_tempfile, _n))
+
     # ---- R7: weakref dereference without gc.collect() -------------------
     # CrossHair calls gc.collect() on every weakref dereference "to make weak references
     # deterministic"; PipeFunc._pipelines is a WeakSet that is iterated on every call, which made
@@ -357,14 +373,35 @@ TOK: dict = {}
 def install_token_pickle():
     import cloudpickle
 
+    def _snap(obj):
+        """pickling takes a snapshot: containers are copied (later mutation of the original must not show
+        through the stored value), leaves - possibly symbolic - are kept by reference"""
+        import numpy as _np
+
+        t = type(obj)
+        if t is dict:
+            return {k: _snap(v) for k, v in obj.items()}
+        if t is list:
+            return [_snap(v) for v in obj]
+        if t is tuple:
+            return tuple(_snap(v) for v in obj)
+        if t is set:
+            return set(obj)
+        if isinstance(obj, _np.ndarray) and obj.dtype == object and not isinstance(obj, _np.ma.MaskedArray):
+            out = _np.empty(obj.shape, dtype=object)
+            for idx in _np.ndindex(obj.shape):
+                out[idx] = _snap(obj[idx])
+            return out
+        return obj
+
     def _dump(obj, f, *a, **k):
         n = len(TOK)
-        TOK[n] = obj
+        TOK[n] = _snap(obj)
         f.write(b"TOK%08d" % n)
 
     def _dumps(obj, *a, **k):
         n = len(TOK)
-        TOK[n] = obj
+        TOK[n] = _snap(obj)
         return b"TOK%08d" % n
 
     def _loads(b, *a, **k):
